@@ -186,7 +186,7 @@ theorem C12_asis_drop_after_close (tp : TParams) (n : NetSt) (now : Int) (name :
     channels, the configuration and the TCP registry exactly as they were; in the UDP registry
     only entries that map to `a` change; only `a`'s own forwarder changes (new ones are appended). -/
 theorem C12_others_unaffected_udp (n : NetSt) (a : String) (l : ULbl) (u : UdpSock) (h : n.udp? a = some u) :
-    UFrame a u.fwd n (l.eff a n).1 :=
+    UdpFrame a u.fwd n (l.eff a n).1 :=
   uframe_label n a l u h
 
 /-- **TCP socket / acceptor** `a` with forwarder `s.fwd` and channel `s.chan`: `close`/destroy,
@@ -199,19 +199,19 @@ theorem C12_others_unaffected_udp (n : NetSt) (a : String) (l : ULbl) (u : UdpSo
 theorem C12_others_unaffected_tcp (tp : TParams) (n : NetSt) (now : Int) (a : String) (s : TcpSock)
     (hs : n.tcp? a = some s) (v4 : Bool) (ep target : Ep) (rop : ReadOp) (wop : WriteOp) (h : Nat)
     (caps : List Nat) (qs : Int) (r : Except Ec Nat) :
-    TFrame a s.fwd s.chan n (n.tcpClose now a).1
-    ∧ TFrame a s.fwd s.chan n (n.tcpOpen now a v4).1
-    ∧ TFrame a s.fwd s.chan n (n.tcpBind a ep).1
-    ∧ TFrame a s.fwd s.chan n (n.tcpCancel a).1
-    ∧ TFrame a s.fwd s.chan n (n.tcpAsyncRead a rop).1
-    ∧ TFrame a s.fwd s.chan n (n.tcpWaitRead a h).1
-    ∧ TFrame a s.fwd s.chan n (n.tcpAsyncWrite a wop).1
-    ∧ TFrame a s.fwd s.chan n (n.tcpWriteFinish a wop r).1
-    ∧ TFrame a s.fwd s.chan n (n.tcpReadNb a caps).1
-    ∧ TFrame a s.fwd s.chan n (n.accCancel a).1
-    ∧ TFrame a s.fwd s.chan n (n.accListen a qs).1
-    ∧ (∀ acc, s.acc = some acc → TFrame a s.fwd s.chan n (n.accClose now a).1)
-    ∧ TFrame a s.fwd s.chan n (n.tcpConnect now a target h).1 := by
+    TcpFrame a s.fwd s.chan n (n.tcpClose now a).1
+    ∧ TcpFrame a s.fwd s.chan n (n.tcpOpen now a v4).1
+    ∧ TcpFrame a s.fwd s.chan n (n.tcpBind a ep).1
+    ∧ TcpFrame a s.fwd s.chan n (n.tcpCancel a).1
+    ∧ TcpFrame a s.fwd s.chan n (n.tcpAsyncRead a rop).1
+    ∧ TcpFrame a s.fwd s.chan n (n.tcpWaitRead a h).1
+    ∧ TcpFrame a s.fwd s.chan n (n.tcpAsyncWrite a wop).1
+    ∧ TcpFrame a s.fwd s.chan n (n.tcpWriteFinish a wop r).1
+    ∧ TcpFrame a s.fwd s.chan n (n.tcpReadNb a caps).1
+    ∧ TcpFrame a s.fwd s.chan n (n.accCancel a).1
+    ∧ TcpFrame a s.fwd s.chan n (n.accListen a qs).1
+    ∧ (∀ acc, s.acc = some acc → TcpFrame a s.fwd s.chan n (n.accClose now a).1)
+    ∧ TcpFrame a s.fwd s.chan n (n.tcpConnect now a target h).1 := by
   obtain ⟨f1, f2, f3, f4, f5, f6, f7, f8, _⟩ := tframe_simple tp n a s.fwd s.chan rop wop h caps qs r
   exact ⟨tframe_tcpClose n now a s hs, tframe_tcpOpen n now a v4 s hs, tframe_tcpBind n a ep _ _, f1, f2, f3, f4, f8,
     f5, f6, f7, fun acc ha => tframe_accClose n now a s acc hs ha, tframe_tcpConnect n now a target h s hs⟩
